@@ -400,7 +400,7 @@ V("c18-names-sorted", "fault", "C18", F + "tabulated_shape_family.py", "self._sh
 V("c18-wrong-file", "fault", "C18", F + "common.py", 'os.path.join(_DATA_FOLDER, "catalan.json"),', 'os.path.join(_DATA_FOLDER, "archimedean.json"),', rule="NAMES")
 V("c18-doc-option-typo", "fault", "C18", F + "common.py", '"Tetrakis Hexahedron"', '"Tetrakis Hexaedron"', rule="NAMES")
 D_ = "coxeter/families/data/"
-V("c18-corrupt-coordinate", "fault", "C18", D_ + "platonic.json", "-0.6981312901399714", "-0.6981312901399914", rule="ENTRY")
-V("c18-corrupt-repository-copy", "fault", "C18", D_ + "science1220869.json", "1.249024766483406", "1.249024766483506", rule=None)
+V("c18-corrupt-coordinate", "fault", "C18", D_ + "platonic.json", "-0.6981312901399714", "-0.6981322901399714", rule="ENTRY")
+V("c18-corrupt-repository-copy", "fault", "C18", D_ + "science1220869.json", "1.249024766483406", "1.249024766493406", rule=None)
 V("c18-type-string", "fault", "C18", D_ + "platonic.json", '"Cube": {\n        "type": "ConvexPolyhedron"', '"Cube": {\n        "type": "Mesh"', rule="ENTRY")
 V("c18-rename-entry", "fault", "C18", D_ + "platonic.json", '"Cube": {', '"Hexahedron": {', rule=None)
